@@ -336,6 +336,11 @@ func memoKey(p sqlm.Pair, noOrder bool, atom string) string {
 // keyFor shrinks the case for one atom and returns the finding key and the shrunk pair.
 func (m *monitor) keyFor(ctx context.Context, dir string, cs Case, atom string, cli bool) (string, sqlm.Pair, int) {
 	still := func(p sqlm.Pair) bool {
+		if p.Rows > 0 {
+			if ok, _ := sqlm.DataSafe(p.A, p.B); !ok {
+				return false // never shrink into a pair whose failure would be legitimate
+			}
+		}
 		mk := memoKey(p, cs.NoOrder, atom)
 		if !cli {
 			if v, ok := m.memo.Load(mk); ok {
@@ -451,8 +456,14 @@ func (m *monitor) evaluate(ctx context.Context, dir string, cs Case, report bool
 		rc.Pair = min
 		rc.Name = cs.Name + " [shrunk]"
 		rc.CLI = viaCLI
+		var so Outcome
+		if viaCLI {
+			so = runCLI(c.Atlas, filepath.Join(dir, "cli"), rc)
+		} else {
+			so = runPair(ctx, dir, rc)
+		}
 		what := fmt.Sprintf("%s: %s (pair %q; shrunk to %d+%d tables, features %v)", leg, atom, cs.Name, len(min.A.Tables), len(min.B.Tables), min.Features())
-		c.Violation(key, what, rc, map[string]any{"original": cs, "atoms": o.Atoms, "outcome": o, "shrunk_hcl_current": min.A.HCL(), "shrunk_hcl_desired": min.B.HCL()})
+		c.Violation(key, what, rc, map[string]any{"original": cs, "atoms": o.Atoms, "outcome": o, "shrunk_outcome": so, "shrunk_hcl_current": min.A.HCL(), "shrunk_hcl_desired": min.B.HCL()})
 	}
 	return o
 }
@@ -501,6 +512,13 @@ func workload(c *rt.Ctx) []Case {
 			panic("invalid case " + cs.Name)
 		}
 		cs.NoOrder = cs.NoOrder || !sqlm.AppendOnly(cs.A, cs.B)
+		if cs.Rows > 0 {
+			// populated only when the data is compatible with the final pair; otherwise a failing
+			// statement would be legitimate
+			if ok, _ := sqlm.DataSafe(cs.A, cs.B); !ok {
+				cs.Rows = 0
+			}
+		}
 		cases = append(cases, cs)
 	}
 	kindsOf := func(es []sqlm.Edit) []string {
